@@ -150,4 +150,146 @@ theorem credentialOf_signer (role : Role) (net : Addr.Network) (h : Bytes) :
     credentialOf (signerAddress role net h) = some h := by
   cases role <;> simp [credentialOf, signerAddress, partPayload]
 
+/-! ## plan ∘ render -/
+
+/-- parse ∘ render for *any* protected header / payload / signature / key in the model's domain (used with the
+honest fields for completeness and with altered fields for the tampering corollaries) -/
+theorem plan_render (es : List HdrEntry) (payload sig : Bytes) (key : Option Bytes) (vk a : Bytes)
+    (addr : Addr.Address)
+    (hs : EntriesSized es) (hl : es.length ≤ 5) (hd : labelsDistinct (es.map HdrEntry.labelId) = true)
+    (hph : (encodeHeader es).length < 2^64) (hp : payload.length < 2^64) (hsg : sig.length < 2^64)
+    (hu : utf8Valid payload = true)
+    (hvk : (match key with
+            | none => findKid es
+            | some kb => coseKeyX kb) = some vk)
+    (ha : findAddress es = some a) (haddr : Addr.fromBytes a = .ok addr)
+    (hlen : 32 < vk.length ∨ (hasAlg es = true ∧ vk.length = 32)) :
+    plan ⟨render es payload sig, key⟩ = some ⟨es, payload, sig, vk, a, addr⟩ := by
+  unfold plan
+  simp only [parseEnvelope_render es payload sig hph hp hsg, parseHeader_encodeHeader es hs hl hd,
+    uhdrOk_unprotected, hu, hvk, ha, haddr, Bool.and_self, if_true]
+  cases key with
+  | none =>
+    simp only [] at hvk ⊢
+    rcases hlen with h | ⟨h1, h2⟩
+    · simp [hvk, haddr, h]
+    · simp [hvk, haddr, h1, h2]
+  | some kb =>
+    simp only [] at hvk ⊢
+    rcases hlen with h | ⟨h1, h2⟩
+    · simp [hvk, haddr, h]
+    · simp [hvk, haddr, h1, h2]
+
+/-- what a successful `plan` guarantees about its result -/
+theorem plan_spec (w : Signed) (p : Plan) (h : plan w = some p) :
+    (∃ pb u, parseEnvelope w.signature = some (pb, u, p.payload, p.sig) ∧ parseHeader pb = some p.entries) ∧
+    findAddress p.entries = some p.addrBytes ∧ Addr.fromBytes p.addrBytes = .ok p.address ∧
+    (match w.key with
+     | none => findKid p.entries
+     | some kb => coseKeyX kb) = some p.vk ∧
+    utf8Valid p.payload = true ∧
+    (32 < p.vk.length ∨ (hasAlg p.entries = true ∧ p.vk.length = 32)) := by
+  unfold plan at h
+  split at h
+  · simp at h
+  · rename_i pb u payload sig henv
+    split at h
+    · simp at h
+    · rename_i es hhdr
+      split at h
+      · rename_i hc
+        split at h
+        · rename_i vk a hvk ha
+          split at h
+          · rename_i addr haddr
+            split at h
+            · rename_i hlen
+              simp only [Option.some.injEq] at h
+              subst h
+              simp only [Bool.and_eq_true] at hc
+              simp only [Bool.or_eq_true, Bool.and_eq_true, decide_eq_true_eq, beq_iff_eq] at hlen
+              exact ⟨⟨pb, u, henv, hhdr⟩, ha, haddr, hvk, hc.2, hlen⟩
+            · simp at h
+          · simp at h
+        · simp at h
+      · simp at h
+
+theorem parseHeader_distinct (pb : Bytes) (es : List HdrEntry) (h : parseHeader pb = some es) :
+    labelsDistinct (es.map HdrEntry.labelId) = true := by
+  unfold parseHeader at h
+  split at h
+  · split at h
+    · split at h
+      · simp only [Option.some.injEq] at h; subst h; assumption
+      · simp at h
+    · simp at h
+  · simp at h
+
+theorem distinct_length_le (es : List HdrEntry) (h : labelsDistinct (es.map HdrEntry.labelId) = true) :
+    es.length ≤ 3 := by
+  match es with
+  | [] => simp
+  | [_] => simp
+  | [_, _] => simp
+  | [_, _, _] => simp
+  | a :: b :: c :: d :: r =>
+    exfalso
+    cases a <;> cases b <;> cases c <;> cases d <;> simp [labelsDistinct, HdrEntry.labelId] at h
+
+/-! ## honest header, Sig_structure -/
+
+theorem honestEntries_props (addr vk : Bytes) (attach : Bool) (ha : addr.length < 2^64) (hv : vk.length < 2^64) :
+    EntriesSized (honestEntries addr vk attach) ∧ (honestEntries addr vk attach).length ≤ 5 ∧
+    labelsDistinct ((honestEntries addr vk attach).map HdrEntry.labelId) = true ∧
+    findAddress (honestEntries addr vk attach) = some addr ∧ hasAlg (honestEntries addr vk attach) = true ∧
+    (attach = false → findKid (honestEntries addr vk attach) = some vk) := by
+  cases attach <;>
+    simp [honestEntries, EntriesSized, HdrEntry.Sized, ha, hv, labelsDistinct, HdrEntry.labelId, findAddress,
+      hasAlg, findKid]
+
+theorem encodeHeader_honest_length (addr vk : Bytes) (attach : Bool) (ha : addr.length < 2^32)
+    (hv : vk.length < 2^32) : (encodeHeader (honestEntries addr vk attach)).length < 2^64 := by
+  have h1 := head_length_le 5 2
+  have h2 := head_length_le 5 3
+  have h3 := head_length_le 0 1
+  have h4 := head_length_le 1 7
+  have h5 := head_length_le 3 7
+  have h6 := head_length_le 2 addr.length
+  have h7 := head_length_le 0 4
+  have h8 := head_length_le 2 vk.length
+  cases attach <;>
+    simp [encodeHeader, honestEntries, HdrEntry.toItem, encode, encodePairs, lblAddress] <;> omega
+
+theorem wf_sigStructure (ph m : Bytes) (h1 : ph.length < 2^64) (h2 : m.length < 2^64) : WF (sigStructure ph m) := by
+  simp [sigStructure, WF, WFList, ctxSignature1, h1, h2]
+
+/-- different payload or different protected bytes ⇒ different to-be-signed bytes -/
+theorem toBeSigned_inj (ph m ph' m' : Bytes) (h1 : ph.length < 2^64) (h2 : m.length < 2^64)
+    (h1' : ph'.length < 2^64) (h2' : m'.length < 2^64) (h : toBeSigned ph m = toBeSigned ph' m') :
+    ph = ph' ∧ m = m' := by
+  have := encode_inj _ _ (wf_sigStructure ph m h1 h2) (wf_sigStructure ph' m' h1' h2') h
+  simpa [sigStructure] using this
+
+/-! ## trailing bytes are ignored -/
+
+theorem loads_trailing (x : Item) (rest : Bytes) (hw : WF x) (hd : depth x ≤ 8) :
+    loads (encode x ++ rest) = some x := by
+  unfold loads
+  rw [decode_encode x rest (parseFuel (encode x ++ rest)) (by unfold parseFuel; omega) hw]
+
+theorem parseEnvelope_render_trailing (es : List HdrEntry) (payload sig rest : Bytes)
+    (hph : (encodeHeader es).length < 2^64) (hp : payload.length < 2^64) (hsg : sig.length < 2^64) :
+    parseEnvelope (render es payload sig ++ rest) = some (encodeHeader es, unprotected, payload, sig) := by
+  unfold parseEnvelope render
+  rw [loads_trailing]
+  · simp [arrayElems, asBytes]
+  · simp [WF, WFList, wf_unprotected, hph, hp, hsg]
+  · simp [depth, depthList, depthPairs, unprotected]
+
+theorem plan_trailing (es : List HdrEntry) (payload sig rest : Bytes) (key : Option Bytes)
+    (hph : (encodeHeader es).length < 2^64) (hp : payload.length < 2^64) (hsg : sig.length < 2^64) :
+    plan ⟨render es payload sig ++ rest, key⟩ = plan ⟨render es payload sig, key⟩ := by
+  simp only [plan, parseEnvelope_render_trailing es payload sig rest hph hp hsg,
+    parseEnvelope_render es payload sig hph hp hsg]
+
 end Pyc.Cip8
